@@ -48,6 +48,47 @@ pub fn thorough_scale(p: &mut Profile) {
     p.caps.extend_from_slice(&[5, 16, 64, 128, 256]);
 }
 
+/// Real-thread supplement of a simulator property: the C17 scenario shapes (OS threads,
+/// spawn_blocking, tasks; async and blocking calls) with the part of the property's oracle that
+/// is sound under arbitrary interleaving.
+pub fn get_rt(id: &str, thorough: bool) -> Option<PropDef> {
+    let c17 = get("C17", thorough)?;
+    let monitor: fn(&View) -> Vec<Violation> = match id {
+        "C01" => m::c01_core,
+        "C02" => m::c02,
+        "C03" => m::c03_replies,
+        "C06" => m::c06_rt,
+        "C13" => m2::c13,
+        _ => return None,
+    };
+    let mut profiles = c17.profiles;
+    if id == "C06" {
+        for p in profiles.iter_mut() {
+            p.w_kill = 4;
+            p.w_how = [12, 2, 4, 1, 0];
+        }
+    }
+    Some(PropDef {
+        id: match id {
+            "C01" => "C01",
+            "C02" => "C02",
+            "C03" => "C03",
+            "C06" => "C06",
+            _ => "C13",
+        },
+        profiles,
+        monitor,
+        labels: m3::c17_labels,
+        nontrivial: &["two_blocking_callers_overlap", "mixed_client_kinds", "blocking_call_failed"],
+        rule: "real-thread supplement: C17 scenario shapes on a multi_thread runtime with OS threads; only the interleaving-sound part of the oracle",
+        quick_cases: 40,
+        thorough_cases: 300,
+        tape_len: 400,
+        log_polls: false,
+        mode: Mode::RealThreads,
+    })
+}
+
 pub fn get(id: &str, thorough: bool) -> Option<PropDef> {
     let mut d = match id {
         "C01" => {
